@@ -44,7 +44,9 @@ def _explore_worker(i):
         triv = z3.is_true(o.goal) and not o.hyps
         obls.append({'name': o.name, 'kind': o.kind, 'path': o.path, 'note': o.note, 'trivial': triv,
                      'smt2': None if triv else verify.smt2_of(o.hyps, o.goal)})
-    can = [verify.smt2_of(pc, z3.BoolVal(False)) for pc, ended, prefix in r.canary if pc]
+    from pyvc.core import _has_quant
+    # vacuity canary on the quantifier-free projection of each path condition (decidable, fast)
+    can = [verify.smt2_of([h for h in pc if not _has_quant(h)], z3.BoolVal(False)) for pc, ended, prefix in r.canary if pc]
     return {'i': i, 'paths': r.paths, 'exc_paths': r.exc_paths, 'undecided': r.undecided_reason, 'gen_s': r.gen_s,
             'obls': obls, 'canary': can}
 
@@ -163,20 +165,23 @@ class Report:
                     else:
                         jobs.append((uid, o['smt2'], u.observables, tl, True))
                 for n, c in enumerate(s['canary']):
-                    canjobs.append(('%s::canary#%d' % (u.name, n), c, [], 5, False))
+                    canjobs.append(('%s::canary#%d' % (u.name, n), c, [], 2, False))
             # lemmas: pure formulas over the contracts
             for name, hyps, goal in lemmas:
                 uid = 'lemma::%s' % name
                 meta[uid] = {'unit': None, 'base': uid, 'uid': uid, 'kind': 'lemma', 'note': '', 'path': []}
                 jobs.append((uid, verify.smt2_of(hyps, goal), [], tl, True))
+            t_explore = time.time() - t0
             results = {}
             for r in pool.imap_unordered(verify.solve_one, jobs, chunksize=1):
                 results[r['uid']] = r
+            t_solve = time.time() - t0
             bad = []
-            for r in pool.imap_unordered(verify.solve_one, canjobs, chunksize=4):
+            for r in pool.imap_unordered(verify.solve_one, canjobs, chunksize=1):
                 if r['status'] == 'unsat':
                     bad.append(r['uid'])
             self.canaries = (len(canjobs), bad)
+            t_can = time.time() - t0
             # bounded model search for undecided obligations: fix the length scalars to small values
             retry = []
             for uid, r in results.items():
@@ -207,6 +212,8 @@ class Report:
             row['unit'] = m['unit'].name if m['unit'] is not None else None
             self.prove_rows.append(row)
         self.prove_wall = time.time() - t0
+        if a.v:
+            print('PROVE phases: explore %.1fs solve %.1fs canary %.1fs total %.1fs' % (t_explore, t_solve, t_can, self.prove_wall))
 
     # ------------------------------------------------------------------ REFUTE
     def refute(self, a):
